@@ -508,12 +508,14 @@ def r5(p, rep):
     rep.rule("C10.R5", "the compiled-function cache is functools.cache / functools.lru_cache", "T-EFF (who implements the memo)", floor=1)
     f = p.func("lru_cache", "util.lru_cache")
     ext = []
-    for n in walk_no_nested(f.node):
-        if isinstance(n, ast.Call):
-            r = p.resolve_expr(f.module, n.func, f.node)
-            if r and r[0] == "external" and r[1] in ("functools.cache", "functools.lru_cache"):
-                ext.append(r[1])
-    handmade = [n for n in ast.walk(f.node) if isinstance(n, ast.Subscript) and isinstance(n.ctx, ast.Store)]
+    fs = [g for g in common.with_helpers(p, f) if g.name not in ("_with_retrace_warning", "_freeze_args", "_freeze_value")]
+    for g in fs:
+        for n in walk_no_nested(g.node):
+            if isinstance(n, ast.Call):
+                r = p.resolve_expr(g.module, n.func, g.node)
+                if r and r[0] == "external" and r[1] in ("functools.cache", "functools.lru_cache"):
+                    ext.append(r[1])
+    handmade = [n for g in fs for n in ast.walk(g.node) if isinstance(n, ast.Subscript) and isinstance(n.ctx, ast.Store)]
     ok = bool(ext) and not handmade
     rep.add("C10.R5", f"{f.qualname}:memo", f.loc, ok, f"memo implemented by {sorted(set(ext))}" if ok else "the cache is not (only) functools' thread-safe cache")
     rep.assume("functools.cache / functools.lru_cache are safe for concurrent callers (may compute twice, never mix entries) and do not cache exceptions")
